@@ -797,6 +797,9 @@ class PythonPrimitiveToStoneDecoder:
         Searches through the JSON-object-compatible dict using the data type
         definition to determine which of the enumerated subtypes `obj` is.
         """
+        if not isinstance(obj, dict):
+            raise bv.ValidationError('expected object, got %s' %
+                                     bv.generic_type_name(obj))
         if '.tag' not in obj:
             raise bv.ValidationError("missing '.tag' key")
         if not isinstance(obj['.tag'], str):
